@@ -49,13 +49,16 @@ CHECKS = {
         "technique": "Coq proof + exhaustive small-domain correspondence",
     },
     "C11": {
-        "text": "Coq theorems C11_hash_fn (gnu_hash = djb2 fold h*33+c mod 2^32 from 5381, every name) and C11_sound (for ANY table, symbol-table and "
-                "string-table bytes, class and spec: a returned (i, sym) is the symbol-table entry at i and its NUL-terminated name equals the query). "
-                "Completeness on well-formed tables is decided by the correspondence: built tables (bloom words 1..64, shift 0..31, symoffset, "
-                "class x spec) are queried with every present name and with absent names colliding in hash/bucket, and the implementation's "
-                "answer must equal a linear scan (and the model's).",
-        "note": STD_NOTE + " Completeness for GNU tables is not yet a theorem (see evidence 'assumptions'); the SysV analogue is proved in C12.",
-        "technique": "Coq proof (soundness, hash function) + extraction-based differential correspondence with linear-scan oracle",
+        "text": "Coq theorems C11_hash_fn (gnu_hash = djb2 fold h*33+c mod 2^32 from 5381, every name), C11_sound (for ANY table, symbol-table "
+                "and string-table bytes, class and spec: a returned (i, sym) is the symbol-table entry at i and its name equals the query), "
+                "C11_complete_present / C11_complete_absent (on a table satisfying the declarative predicate gnu_wf -- every hashed symbol "
+                "named, its chain entry carrying its hash, both bloom bits set in its bloom word of the class's width, its bucket's chain "
+                "starting at or before it with no stop bit in between -- every hashed name is found and every absent name, colliding in "
+                "hash, bloom bits or bucket or not, gives None), C11_find_is_find_in; C11_wf_example proves gnu_wf for a concrete built "
+                "table. Tie: built tables (bloom words 1..64, shift 0..31, symoffset, class x spec) queried with present and colliding "
+                "absent names vs a linear scan; corrupted tables: soundness on the implementation's own answers.",
+        "note": STD_NOTE,
+        "technique": "Coq proof (soundness by inspection of the return point, completeness by induction along the chain segment) + extraction-based differential correspondence with linear-scan oracle",
     },
     "C12": {
         "text": "Coq theorems C12_hash_fn (sysv_hash with u32 wrapping arithmetic = the gABI elf_hash routine over a 32-bit word, every name), "
